@@ -156,6 +156,7 @@ type PackArg struct {
 	Roundtrip bool    `json:"roundtrip,omitempty"`
 	Reuse     bool    `json:"reuse,omitempty"` // the same *Packer first packs the fixed tree <W>/pre
 	PreSrc    string  `json:"pre_src,omitempty"`   // with Reuse: pack this directory first instead (its nodes are part of Nodes)
+	PreFails  bool    `json:"pre_fails,omitempty"` // with Reuse: the earlier Pack fails half-way (dangling out-of-tree link sorted last)
 	AllowRel  string  `json:"allow_rel,omitempty"` // AllowSymlinkTarget with a RELATIVE entry (relative to the root of each operation)
 	UID       int     `json:"uid,omitempty"`
 	// writer faults (C12)
@@ -262,6 +263,10 @@ func runPack(arg PackArg) (out PackOut) {
 		BuildTree(W, []TNode{{Path: "pre/f", Kind: "file", Body: "12345"}, {Path: "pre/sub/g", Kind: "file", Body: "678"},
 			{Path: "pre/sub/ok", Kind: "link", Target: "../f"}, {Path: "pre/sub/a", Kind: "link", Target: "../a"}, {Path: "pre/a", Kind: "file", Body: "pa"},
 			{Path: "pre/l", Kind: "link", Target: "a"}, {Path: "pre/d/l", Kind: "link", Target: "../a"}, {Path: "pre/zz", Kind: "link", Target: "a"}})
+		if arg.PreFails {
+			// the first Pack on this Packer FAILS after having written entries
+			BuildTree(W, []TNode{{Path: "pre/zzz-ext", Kind: "link", Target: "../does-not-exist/f"}})
+		}
 	}
 	before := fsx.Snapshot(W)
 	fw := &faultWriter{failAt: arg.FailAt, short: arg.ShortFail}
